@@ -198,11 +198,13 @@ PROPS["C09"] = {
 PROPS["C07"] = {
     "coq": ["Properties/C07.v", "Corr/Convcorr.v"],
     "trusted": CONV_TRUSTED + ["arbitrary BYTES first meet yaml.v2, go/parser and gqlparser's lexer/parser/validator (third party): the theorems start at the validated AST; the byte-level stream is exploration (recover + watchdog), reported as such"],
-    "assumptions": ["the full 'generate_types never returns Panic/OutOfFuel on well-formed input' theorem is not yet proved; the model's Panic sites are exercised through the per-run correspondence (the model must predict Ok/Err/Panic of every explored program)"],
-    "level_text": "Theorems: usedFragments terminates for every fragment table (no acyclicity assumed); the whole comment-directive path (scan, add, for:, conflicts) returns a value or an error for every line sequence; the formerly crashing inline fragment without type condition is converted. The converter model marks every unchecked map dereference of convert.go as an explicit Panic and every non-structural recursion with fuel, and must predict the real outcome (accepted / error class / panic) of every explored program in-kernel. Exploration: valid-but-unusual programs, genqlient.yaml variants through ReadAndValidateConfig, and byte-level mutations of all four input kinds, each under recover and a watchdog.",
+    "assumptions": ["the converter theorem assumes that names resolve (Gen/Wf.v: every named type, fragment and root type exists): gqlparser's validator guarantees it and Corr/Convcorr.v evaluates the same boolean on every explored program; the flatten index sites and OutOfFuel are not excluded by a theorem but exercised through the correspondence (the model must predict Ok/Err/Panic of every explored program)"],
+    "level_text": "Theorems: usedFragments terminates for every fragment table (no acyclicity assumed); the whole comment-directive path (scan, add, for:, conflicts) returns a value or an error for every line sequence; the formerly crashing inline fragment without type condition is converted; for the WHOLE converter model (convert.go with the directive validation it calls, every configuration and source text): on programs whose names resolve, no unchecked map or pointer dereference is reachable -- only the flatten index sites remain. The converter model marks every unchecked map dereference of convert.go as an explicit Panic and every non-structural recursion with fuel, and must predict the real outcome (accepted / error class / panic) of every explored program in-kernel. Exploration: valid-but-unusual programs, genqlient.yaml variants through ReadAndValidateConfig, and byte-level mutations of all four input kinds, each under recover and a watchdog.",
     "level_note": "partial: proof for the directive path and fragment closure; converter no-panic carried by the correspondence on the model's explicit Panic sites; raw bytes are exploration only.",
     "theorem_status": {"C07_used_fragments_terminates": "proved", "C07_directive_add_total": "proved", "C07_directive_scan_total": "proved",
-                       "C07_bare_inline_fragment_converts": "proved (fixed finding)"},
+                       "C07_bare_inline_fragment_converts": "proved (fixed finding)",
+                       "C07_converter_panics_only_at_flatten_index_sites_partial": "proved (partial: with names resolved no unchecked dereference of the converter is reachable; the flatten index sites remain)",
+                       "C07_converter_hypotheses_satisfiable": "proved (non-vacuity)"},
 }
 
 PROPS["C01"] = {
